@@ -12,5 +12,7 @@ CONSTANTS
   LoneBulk = FALSE
   SDelims <- MCSDelims
   RDelims <- MCRDelims
+  RunLists <- MCRunLists
+  EvalMode = "each"
 INVARIANT EmitCases
 CHECK_DEADLOCK FALSE
